@@ -126,6 +126,9 @@ func New(config ExtractorConfig) *Extractor {
 //
 // Returns empty Seq if no prefix literals can be extracted.
 func (e *Extractor) ExtractPrefixes(re *syntax.Regexp) *Seq {
+	if hasSurrogateLiteral(re, 0) {
+		return NewSeq()
+	}
 	seq := e.extractPrefixes(re, 0)
 	// Optimize for prefilter: if >64 literals (exceeds FatTeddy capacity),
 	// try cascading prefix trim + dedup to fit Teddy.
@@ -622,6 +625,9 @@ func (e *Extractor) handleCrossProductOverflow(s *Seq) *Seq {
 //
 // Returns empty Seq if no suffix literals can be extracted.
 func (e *Extractor) ExtractSuffixes(re *syntax.Regexp) *Seq {
+	if hasSurrogateLiteral(re, 0) {
+		return NewSeq()
+	}
 	return e.extractSuffixes(re, 0)
 }
 
@@ -808,6 +814,9 @@ func (e *Extractor) extractSuffixes(re *syntax.Regexp, depth int) *Seq {
 //
 // Returns empty Seq if no inner literals can be extracted.
 func (e *Extractor) ExtractInner(re *syntax.Regexp) *Seq {
+	if hasSurrogateLiteral(re, 0) {
+		return NewSeq()
+	}
 	return e.extractInner(re, 0)
 }
 
@@ -1074,6 +1083,9 @@ func (e *Extractor) expandCharClass(re *syntax.Regexp) *Seq {
 	for i := 0; i < len(re.Rune); i += 2 {
 		lo, hi := re.Rune[i], re.Rune[i+1]
 		for r := lo; r <= hi; r++ {
+			if isSurrogate(r) {
+				continue // no UTF-8 encoding: this member matches nothing
+			}
 			bytes := []byte(string(r))
 			complete := true
 			// Truncate if exceeds MaxLiteralLen
@@ -1156,6 +1168,9 @@ func (e *Extractor) ExtractInnerForReverseSearch(re *syntax.Regexp) *InnerLitera
 	// Only works on concatenation patterns
 	if re.Op != syntax.OpConcat || len(re.Sub) < 3 {
 		// Need at least 3 parts: prefix + inner + suffix
+		return nil
+	}
+	if hasSurrogateLiteral(re, 0) {
 		return nil
 	}
 
@@ -1333,6 +1348,37 @@ func isWildcardOrRepetition(re *syntax.Regexp) bool {
 }
 
 // Helper functions
+
+// isSurrogate reports whether r is a UTF-16 surrogate code point (U+D800-U+DFFF).
+func isSurrogate(r rune) bool {
+	return r >= 0xD800 && r <= 0xDFFF
+}
+
+// hasSurrogateLiteral reports whether the pattern contains a literal with a
+// surrogate code point. Such a literal has no UTF-8 encoding and can never match
+// (string(r) would turn it into U+FFFD, which the pattern does not match either),
+// so no literal extracted from the pattern may be trusted as a match or a
+// required substring: the extractor reports "no literals" and the regex engines,
+// which compile the literal to a dead state, decide alone.
+func hasSurrogateLiteral(re *syntax.Regexp, depth int) bool {
+	if depth > 100 {
+		return true // too deep to inspect: be conservative
+	}
+	if re.Op == syntax.OpLiteral {
+		for _, r := range re.Rune {
+			if isSurrogate(r) {
+				return true
+			}
+		}
+		return false
+	}
+	for _, sub := range re.Sub {
+		if hasSurrogateLiteral(sub, depth+1) {
+			return true
+		}
+	}
+	return false
+}
 
 // runeSliceToBytes converts []rune to []byte using UTF-8 encoding.
 func runeSliceToBytes(runes []rune) []byte {
